@@ -367,6 +367,14 @@ def _run(tok):
                 except Exception:
                     outs.append("err")
         return " ; ".join(outs)
+    if op == "gen_step":
+        # bulk derivation with every interval shape `range(*interval)` accepts: (b,), (a, b), (a, b, step)
+        nd = unnode(a[0])
+        ar, va, vb, vs = int(a[1]), int(a[2]), int(a[3]), int(a[4])
+        iv = (vb,) if ar == 1 else (va, vb) if ar == 2 else (va, vb, vs)
+        with _Prf(a[5]):
+            cs = nd.generate_children(interval=iv)
+        return "L " + " / ".join(nodeS(c) for c in cs) if cs else "L"
     if op == "master":
         with _Prf(a[2]):
             return nodeS(bip32.PrvKeyNode.master_key(bip39_seed=unhex(a[0]), testnet=unbool(a[1])))
@@ -554,6 +562,13 @@ def _run(tok):
         return boolS(script.Script(unlist(uncmd, a[0])) == script.Script(unlist(uncmd, a[1])))
     if op == "scr_repr":
         return sx(repr(script.Script(unlist(uncmd, a[0]))))
+    if op == "ver_bip":
+        return str(wu.Version.bip(int(a[0])))
+    if op == "ver_valid":
+        return boolS(wu.Version.valid_version(int(a[0])))
+    if op == "ver_parse":
+        v_ = wu.Version.parse(int(a[0]))
+        return "%d %d %s" % (v_.key_type.value, v_.bip_type.value, boolS(v_.testnet))
     if op == "ver_list":
         V = wu.Version
         fn = {"main": V.mainnet_versions, "test": V.testnet_versions,
@@ -767,6 +782,7 @@ class HistCtx:
         self.w = w
         self.nodes = [w.master]
         self.gens = []
+        self.path_buf = []      # ONE caller-owned list handed to derive_path again and again, modified in place
 
     def do(self, opstr):
         try:
@@ -798,7 +814,13 @@ class HistCtx:
             return "L " + " / ".join(nodeS(c) for c in cs)
         if k == "dp":
             par = self.nodes[int(t[1])]
-            return self._new(par.derive_path(_seq(unlist(int, t[2]))), par)
+            if ALT[0]:
+                seq = _seq(unlist(int, t[2]))
+            else:
+                # the caller keeps its list and changes it in place between requests (the library must not hold on to it)
+                self.path_buf[:] = unlist(int, t[2])
+                seq = self.path_buf
+            return self._new(par.derive_path(seq), par)
         if k == "ad":
             return "t" + sx(_none_err(addr_fn(w, t[2])(self.nodes[int(t[1])])))
         if k == "xk":
@@ -887,6 +909,15 @@ def run_alt(line):
     finally:
         ALT[0] = False
         ALT_BUFFERS.clear()
+
+
+def run_thread(line):
+    """the same operation executed in a fresh worker thread (not the thread that imported the library)"""
+    box = []
+    th = threading.Thread(target=lambda: box.append(run(line)))
+    th.start()
+    th.join()
+    return box[0] if box else "err"
 
 
 def run(line):
